@@ -221,8 +221,10 @@ class CPreProcessor:
         search_directories = []
         if use_current_dir:
             # In the case of: #include "foo.h"
-            current_dir = os.path.dirname(self.files[-1].source_file.filename)
-            search_directories.append(current_dir)
+            # (source text which does not come from a file has no directory)
+            current_filename = self.files[-1].source_file.filename
+            if current_filename:
+                search_directories.append(os.path.dirname(current_filename))
         search_directories.extend(self.coptions.include_directories)
 
         # self.logger.debug((search_directories)
